@@ -802,3 +802,14 @@ PROPS['C20'] = dict(
           'every kind: editing a returned problem statement (parameter, metric, goals, metadata) changes neither the next '
           'statement nor the evaluation', '18 kinds x 3 edits'),
     ])
+
+
+_NATIVE_NOTE = (' PARTIAL claim: besides the symbolic obligations, some obligations of this property only let the solver choose a '
+                'CONFIGURATION (algorithm, boundary search-space shape, schedule, restart subset, grid point) and run the '
+                'numpy code natively on every configuration of the stated finite space; those make no claim about values '
+                'inside the numpy code (see DESIGN.md 2.4).')
+_DEFAULT_LEVEL = ('Bounded symbolic execution of the real code: for each obligation z3 either exhausts all feasible paths of the '
+                  'harness (the property then holds for every input inside the stated bound) or yields a concrete '
+                  'counterexample that is replayed natively.')
+for _p in ('C03', 'C13', 'C15'):
+  PROPS[_p]['level_text'] = _DEFAULT_LEVEL + _NATIVE_NOTE
